@@ -618,6 +618,33 @@ func groups(w *mon.W) {
 				return
 			}
 		}
+		// a proper prefix of a registered path that is itself not found stays not found with a
+		// slash behind it (the trailing-slash redirect leads to routes, never to a 404): both
+		// requests run the engine's middleware and the not-found chain
+		for _, rt := range routes {
+			for i := 1; i < len(rt.path); i++ {
+				if rt.path[i] != '/' {
+					continue
+				}
+				pre := rt.path[:i]
+				if strings.Join(serve("GET", pre), " ") != strings.Join(want, " ") {
+					continue // (the prefix is served or redirected by some route)
+				}
+				w.Count("group_probes_of_unmatched_prefixes", 1)
+				if got := serve("GET", pre+"/"); strings.Join(got, " ") != strings.Join(want, " ") {
+					reg := false
+					for _, r2 := range routes {
+						if r2.path == pre+"/" {
+							reg = true
+						}
+					}
+					if !reg && !strings.ContainsAny(rt.path, ":*") {
+						c.Violate("noroute-chain", "registration %v: GET %s is not found and runs %v; GET %s/ ran %v (want the same chain: nothing is registered there)", ops, pre, want, pre, got)
+						return
+					}
+				}
+			}
+		}
 		w.Shape(mon.Hash64(strings.Join(ops, ";")))
 		if w.WantSample() && len(routes) >= 2 {
 			w.Sample(map[string]interface{}{"family": "groups", "registration": ops, "first_route_chain": routes[0].chain})
